@@ -257,8 +257,9 @@ func HTMLAssets(item *models.Item) (assets []*models.URL, err error) {
 				matchReplacement = strings.Replace(matchReplacement, "\"", "", -1)
 
 				// If the URL already has http (or https), we don't need add anything to it.
-				if !strings.Contains(matchReplacement, "http") {
-					matchReplacement = strings.Replace(matchReplacement, "//", "http://", -1)
+				// Only a leading "//" is a scheme-relative URL; a "//" further down is part of the path.
+				if !strings.Contains(matchReplacement, "http") && strings.HasPrefix(matchReplacement, "//") {
+					matchReplacement = "http:" + matchReplacement
 				}
 
 				if strings.HasPrefix(matchReplacement, "#wp-") {
